@@ -187,6 +187,8 @@ pub fn run(ctx: &Ctx) -> i32 {
             case_date(bases[(k / 4) as usize], (k % 4) as usize, ((i / 12) * nstep + ctx_seed_phase(nstep)) as u32, acc);
         });
     }
+    // E2: sequences of month / year / day operations (state carried from one call into the next)
+    crate::machine::run_datetime_machine(&mut rep, if ctx.thorough { 4 } else { 3 }, crate::machine::DtMenu::Calendar);
     rep.finish()
 }
 
@@ -197,6 +199,7 @@ fn ctx_seed_phase(_step: u64) -> u64 {
 pub fn replay(_op: &str, case: &Value, acc: &mut Acc) -> bool {
     match case["kind"].as_str() {
         Some("date") => case_date(case["day"].as_i64().unwrap(), case["op"].as_u64().unwrap() as usize, case["n"].as_u64().unwrap() as u32, acc),
+        Some("machine") => crate::machine::replay_datetime(case, acc),
         Some("dt") => case_dt(case["day"].as_i64().unwrap(), case["nod"].as_str().unwrap().parse().unwrap(), case["off"].as_i64().unwrap() as i32, case["op"].as_u64().unwrap() as usize, case["n"].as_u64().unwrap() as u32, acc),
         _ => return false,
     }
